@@ -3,32 +3,32 @@
 import json
 props = [json.loads(l) for l in open('/verif/properties.jsonl')]
 ids = [p['id'] for p in props]
-PROTO_NOTE = ('Assumes: relay folding (channel-capacity blocking outside), environment oracles at the incremental/watcher function boundaries, '
+PROTO_NOTE = ('Assumes: relay folding (blocking on full channels is searched separately by SYSQ for C04/C10: explicit relay channel, blocking sends, bounded capacities clamped to 1, n=2, K steps), environment oracles at the incremental/watcher function boundaries, '
               'kill succeeds and killed children are reaped at once, hash-set iteration order fixed, library models listed in the evidence; '
               'bounds n<=2 targets (quick) / n<=3 (thorough), K steps, <=2 notifications; trusted base: z3 4.8.12 (QF_BV), the syn front end, the ZX executor and its library models '
               '(validated every run by replaying solver witnesses on the real code compiled against the model runtime).')
 SYM_NOTE = ('Assumes the library/environment models listed in the evidence (virtual file system, walkdir, bincode round trip, command outputs, regex via Python re); bounds = the path universes / project families listed in the evidence; trusted base: z3, the syn front end, the ZX executor; validated every run by native runs of the real code.')
 CLAIMED = {
  'C01': ('model_checking', 'SYS bounded model checking (z3 over step summaries symbolically executed from the actor sources): no spawn before every dependency succeeded / was started; no decision to start while the last word from a dependency is not Ok (watch). Counterexamples are replayed on the real code.', '4 C01'),
- 'C04': ('model_checking', 'SYS: every quiescent state of a successful one-shot run has exited Ok with every needed build done; completeness of K is an obligation; found F1 (fixed).', '4 C04'),
+ 'C04': ('model_checking', 'SYS: every quiescent state of a successful one-shot run has exited Ok with every needed build done (skipped builds included); completeness of K is an obligation; SYSQ: no blocked state (circular wait between the relaying engine and the actors) within K steps under clamped capacities. Found F1 and F2 (fixed).', '4 C04'),
  'C07': ('model_checking', 'SYS with symbolic failing subset: no dependent of a failed target starts, the one-shot run returns Err iff something failed, watch mode keeps running.', '4 C07'),
  'C08': ('model_checking', 'SYS with duplicated roots: never two starts/results of a target, nothing outside the closure is launched, exactly once on success.', '4 C08'),
- 'C10': ('model_checking', 'SYS with processes that never exit by themselves: signal or failure at any step still leads to exit with every spawned process killed and reaped.', '4 C10'),
- 'C11': ('model_checking', 'SYS: main stays alive iff a service is requested (directly or through aggregates); services are single-instance and stopped at exit.', '4 C11'),
+ 'C10': ('model_checking', 'SYS with processes that never exit by themselves: signal or failure at any step still leads to exit with every spawned process killed and reaped; SYSQ: a signal still leads to exit when the output channel is full (actors blocked in send).', '4 C10'),
+ 'C11': ('model_checking', 'SYS (incl. watch mode and a pinned aggregate-over-build-and-service graph): main stays alive iff a service is requested (directly or through aggregates); services are single-instance, running whenever a dependent build starts, and stopped at exit.', '4 C11'),
  'C02': ('other', 'symbolic execution of the real incremental::run over a symbolic file system (two invocations): run #2 = Skipped implies a complete record from run #1 and an unchanged declared tree by an independent reference semantics (listing, mtime-or-hash, command text).', '4 C02'),
  'C03': ('other', 'same exploration: record stored and nothing changed => Skipped; a completed run stores its record; found F3 (fixed).', '4 C03'),
  'C05': ('other', 'same exploration plus a three-invocation chain with zinoma dying at every file-system mutation point / while the script runs: no skip unless the record of the interrupted run was complete; failed or cancelled scripts never skip.', '4 C05'),
  'C06': ('model_checking', 'LOCAL bounded model checking of each actor in an open environment (watch mode): no acknowledgement of a run invalidated in flight, no start while the last word of a dependency is out of date, late requesters answered. (The whole-system convergence clause and the absorbed-change clause are outside this check; see DESIGN F6.)', '4 C06'),
- 'C09': ('other', 'symbolic execution of the real resolver over project families with solver-chosen references and requests, compared path by path with a reference closure/cycle/kind semantics; native confirmation through the real binary.', '4 C09'),
+ 'C09': ('other', 'symbolic execution of the real resolver over project families with solver-chosen references and requests, compared path by path with a reference closure/cycle/kind semantics; the same through the whole of main() (MAINRUN: command line -> ids -> resolution -> what the engine is started with); native confirmation through the real binary.', '4 C09'),
  'C13': ('other', 'resolver exploration: the input of every consumer = own resources + outputs of each X.output producer bound to the producer directory; native two-run confirmation.', '4 C13'),
- 'C18': ('other', 'incremental::run writes nothing but its own record (frame condition over every explored path); path/identity part planned.', '4 C18'),
- 'C19': ('other', 'resolver exploration with bare and qualified spellings: accepted names, same id for both spellings, bare references resolve in the declaring project.', '4 C19'),
+ 'C18': ('other', 'incremental::run writes nothing but its own record (frame condition over every explored path); entry independence: main() entered in the importing project and in the imported project resolves the same target to identical values (directory, resource paths, command directories), natively: built from the importer, skipped from its own directory.', '4 C18'),
+ 'C19': ('other', 'resolver exploration with bare and qualified spellings: accepted names, same id for both spellings, bare references resolve in the declaring project; MAINRUN: the engine is started with exactly the targets the requested spellings denote (same bare name in two projects, both orders) and their closure.', '4 C19'),
  'C20': ('model_checking', 'LOCAL bounded model checking of the aggregate actor: acknowledges exactly when the last dependency did, answers late requesters, never misdirects; SYS obligations of C04/C08/C11 range over aggregate roots.', '4 C20'),
- 'C12': ('other', 'symbolic execution of the --clean branch of main(), clean.rs, work_dir.rs, delete_saved_env_state over a symbolic tree: the deletion primitives invoked = the reference set (declared outputs / matching files / own state or whole work dir), for --clean and --clean T; one directory symlink below a filtered output is part of the tree (links to files / as declared paths are not decided).', '4 C12'),
- 'C14': ('other', 'decidable part only: the import walk of yaml::Config::load + ir::Config::from over solver-chosen project names and import edges (keys = names, named imports, unique names, termination, cycles/self-imports). The byte-level YAML clauses (no panic on any byte string, unknown keys, exactly one kind) are NOT decided (serde_yaml/yaml-rust not encodable within reach). Found F5 (fixed).', '4 C14'),
- 'C15': ('other', 'symbolic execution of fs::list_files_in_resources / matches_extensions / is_work_dir over a symbolic tree with awkward names (dot-files, multi-dot, name = extension, non-UTF-8, .zinoma at depth) against the reference listing; transform_extensions normalisation.', '4 C15'),
- 'C16': ('other', 'symbolic execution of TargetWatcher::new and its event closure over solver-chosen events (1-2 paths incl. non-UTF-8, Err events, full slot): no panic, notifies iff a relevant path, missing paths do not fail start-up. Found F4 (fixed).', '4 C16'),
- 'C17': ('model_checking', 'SYS with a symbolic set of hanging scripts: at quiescence every target none of whose transitive dependencies hangs has been started.', '4 C17'),
+ 'C12': ('other', 'symbolic execution of the --clean branch of main(), clean.rs, work_dir.rs, delete_saved_env_state over a symbolic tree: the deletion primitives invoked = the reference set (declared outputs / matching files / own state or whole work dir), for --clean and --clean T; a symlink (to a directory, a file or nothing) below a filtered output and a declared plain output that may itself be a symlink are part of the tree; MAINRUN: --clean T forgets the state of T and of all its dependencies and of nothing else. Found F9 (fixed).', '4 C12'),
+ 'C14': ('other', 'decidable part only: the import walk of yaml::Config::load + ir::Config::from over solver-chosen project names and import edges (keys = names, named imports, unique names, termination, cycles/self-imports); MAINRUN with --clean: a configuration rejected at resolution time has nothing deleted before the error. The byte-level YAML clauses (no panic on any byte string, unknown keys, exactly one kind) are NOT decided (serde_yaml/yaml-rust not encodable within reach). Found F5 (fixed).', '4 C14'),
+ 'C15': ('other', 'symbolic execution of fs::list_files_in_resources / matches_extensions / is_work_dir over a symbolic tree with awkward names (dot-files, multi-dot, name = extension, non-UTF-8, .zinoma at depth, a symlink to a file / directory / nothing) against the reference listing (a link that resolves to a regular file counts as that file); transform_extensions normalisation.', '4 C15'),
+ 'C16': ('other', 'symbolic execution of TargetWatcher::new and its event closure over solver-chosen events (1-2 paths incl. non-UTF-8, Err events, full slot): no panic, notifies iff a relevant path, a later relevant event is not dropped, missing paths do not fail start-up; several input resources with nested/equal paths and different filters are each watched with their own filter. Found F4 (fixed).', '4 C16'),
+ 'C17': ('model_checking', 'SYS with a symbolic set of hanging scripts: at quiescence every target none of whose transitive dependencies hangs has been started; over every path of incremental::run no user command / build script is awaited while a lock living in a static (shared between targets) is held.', '4 C17'),
 }
 checks = []
 for pid in ids:
